@@ -24,10 +24,12 @@ RULE = (
     "no-answer. Non-trivial = non-empty returned set. Distinct = sha1(spec)."
 )
 ASSUMPTIONS = [
-    "the property is conditional on the search returning; exceptions are counted (classes no_answer:*) not judged",
+    "the property is conditional on the search returning; refusals (RuntimeError 'Ran out of valid indices', ValueError for an empty candidate set) are counted (classes no_answer:*) not judged; internal crashes (KeyError, IndexError, TypeError, ...) are reported",
 ]
 
 MIN = ["flops", "size", "write", "combo", "limit"]
+# exception types that are never a refusal
+CRASHES = {"KeyError", "IndexError", "AttributeError", "TypeError", "ZeroDivisionError", "UnboundLocalError", "NameError"}
 
 
 @st.composite
@@ -120,6 +122,13 @@ def run_case(spec, sub=None):
 
     def no_answer(res):
         k = res.split(":")[0]
+        if k in CRASHES:
+            # not a refusal ("ran out of indices", "no candidate meets the
+            # targets") but the finder falling over its own bookkeeping: no
+            # answer although the question was legitimate. Reported, because a
+            # property that is conditional on an answer would otherwise be met
+            # vacuously by a finder that crashes.
+            return Outcome([f"the slice search crashed instead of answering or refusing: {res}"], False, cls + [f"crash:{k}"])
         return Outcome([], False, cls + [f"no_answer:{k}"])
 
     if spec["via"] == "finder_override":
